@@ -141,8 +141,7 @@ Definition run_case (line : str) : str :=
                 s2l "wf=" ++ show_bool (wfb L (dec_nv nv) (is1 ck) (is1 r) i) ++
                 s2l " rw=" ++ show_bool (res_incon_eqb (bind w (read (dec_nv nv) (is1 ck))) c) ++
                 s2l " idh=" ++ show_bool (idemb L (is1 r) i) ++
-                s2l " idem=" ++ show_bool (res_lines_eqb (write (is1 r) c) w) ++
-                s2l " fix=" ++ show_bool (str_eqb (show_incon (canon_L L (is1 r) c)) (show_incon c))
+                s2l " idem=" ++ show_bool (res_lines_eqb (write (is1 r) c) w)
             | Raise e => s2l "NOLAYOUT" end
         | _ => s2l "BADCASE" end
       else if str_eqb k (s2l "N") then
